@@ -97,12 +97,15 @@ def MP_describe(parts):
 class Watch:
     """Chunk iterator that inspects the helper's frame each time the next chunk is requested."""
 
-    def __init__(self, chunks, dlen, limit=None, field_total_by_pos=None):
+    def __init__(self, chunks, dlen, limit=None, field_total_by_pos=None, file_span=None):
         self.chunks = chunks
         self.dlen = dlen
         self.problems = []
         self.observed = 0
         self.prev = 0
+        self.fed = 0
+        self.sinks = []
+        self.file_start, self.file_end = file_span if file_span else (None, None)
 
     def check(self, frame, i):
         loc = frame.f_locals if frame is not None else {}
@@ -112,11 +115,28 @@ class Watch:
         self.observed += 1
         if MP.state_name(parser) == "DATA" and len(parser.buffer) > self.prev + self.dlen + SLACK:
             self.problems.append(f"after chunk {i - 1} ({self.prev} bytes) the decoder still holds {len(parser.buffer)} bytes")
+        # the sink: file bytes received so far minus what the sink has been given (observed through the sink object itself,
+        # not through the helper's variables)
+        if self.sinks and self.file_start is not None:
+            received = max(0, min(self.fed, self.file_end) - self.file_start)
+            written = len(self.sinks[-1].data)
+            if received - written > self.prev + self.dlen + SLACK:
+                self.problems.append(f"after chunk {i - 1}: {received} bytes of the upload received but only {written} handed to the file sink")
+
+    def factory(self, base):
+        watch = self
+
+        class Sink(base):
+            def __init__(s, filename, headers):
+                super().__init__(filename, headers)
+                watch.sinks.append(s)
+        return Sink
 
     def sync(self):
         for i, c in enumerate(self.chunks):
             self.check(sys._getframe(1), i)
             self.prev = len(c)
+            self.fed += len(c)
             yield c
 
     async def asynch(self):
@@ -124,6 +144,7 @@ class Watch:
             f = sys._getframe(1)
             self.check(f, i)
             self.prev = len(c)
+            self.fed += len(c)
             yield c
 
 
@@ -141,16 +162,17 @@ def run_helperbuf(r, k):
         body = MR.encode(parts, boundary)
         for size in range(1, 65):
             chunks = [body[i:i + size] for i in range(0, len(body), size)]
+            hdr_end = body.index(b"\r\n\r\n") + 4
             for mode in ("sync", "async"):
-                w = Watch(chunks, len(boundary) + 4)
+                w = Watch(chunks, len(boundary) + 4, file_span=(hdr_end, hdr_end + len(content)) if as_file else None)
                 r.count("evaluations")
                 r.count("distinct_nontrivial")
                 limit = None if as_file else 100
                 try:
                     if mode == "sync":
-                        parse_stream(w.sync(), boundary, "utf-8", file_factory=MP.RecFile, max_form_memory_size=limit)
+                        parse_stream(w.sync(), boundary, "utf-8", file_factory=w.factory(MP.RecFile), max_form_memory_size=limit)
                     else:
-                        run_coro(parse_async_stream(w.asynch(), boundary, "utf-8", file_factory=MP.ARecFile, max_form_memory_size=limit))
+                        run_coro(parse_async_stream(w.asynch(), boundary, "utf-8", file_factory=w.factory(MP.ARecFile), max_form_memory_size=limit))
                     outcome = "ok"
                 except HTTPException as e:
                     outcome = e.status_code
